@@ -28,7 +28,10 @@ TRUSTED = ["HKDF/SHA-256: the sender, receiver and relay handshake strings of a 
            "neither a prefix of the other: hypotheses of the theorems; the harness uses the real strings)",
            "Twisted Deferred semantics (cancel() fires synchronously; callbacks run in order) and task.Clock ordering",
            "transports deliver no dataReceived after loseConnection()/connectionLost (the harness never does)",
-           "real TCP connect/refuse/timeout behaviour, DNS, Tor; the record layer after negotiation (C06)"]
+           "real TCP connect/refuse/timeout behaviour, DNS, Tor",
+           "the record layer after negotiation (C06): only its boundary is modelled - an incomplete length prefix / "
+           "incomplete record waits, a complete record is handed over; no harness peer holds the record keys, so a "
+           "complete record always makes the real code raise (reported as RecordError)"]
 RULE = ("a real TransitSender/TransitReceiver with 0-1 listener, 0-3 direct and 0-2 relay contenders, 1-5 connections whose "
         "peers are honest / stranger / wrong-key / reflected / partial / one-byte-off / relay-refused, bytes delivered in "
         "random chunks in random interleavings chosen against the live state, connection losses, connect failures and "
@@ -146,16 +149,28 @@ class World:
             f()
             return None
         except Exception as e:       # what Twisted would log; the connection is dropped by the code itself
-            return type(e).__name__
+            return e
+
+    def _exc_name(self, c, e):
+        """class name of an exception seen on connection `c`; once the negotiation has succeeded the only
+        code left in dataReceived is the record layer (C06's subject), whose exceptions (ValueError on an
+        empty record, BadNonce, nacl CryptoError, ...) are all reported as `RecordError`"""
+        if e is None:
+            return None
+        negotiated = c is not None and c["obs"].res != "pending" and c["obs"].res[0] == "ok"
+        if negotiated and not isinstance(e, (transit.BadHandshake, defer.CancelledError)):
+            return "RecordError"
+        return type(e).__name__
 
     def op(self, op):
         """returns None (not possible now: skipped) or the canonical summary line"""
         k = op[0]
         raised = None
+        rc = None          # the connection a raised exception belongs to
         if k == "inbound":
             if self.listener_obs is None or self.listener_obs.res != "pending":
                 return None
-            c = self._new_conn(self.t._listener_f, False)
+            c = rc = self._new_conn(self.t._listener_f, False)
             raised = self._guard(lambda: c["p"].makeConnection(c["tr"]))
         elif k == "connect":
             if self.started:
@@ -174,7 +189,7 @@ class World:
             if k == "connfail":
                 ep.d.errback(ConnectionRefusedError())
             else:
-                c = self._new_conn(ep.factory, lab.startswith("r"))
+                c = rc = self._new_conn(ep.factory, lab.startswith("r"))
 
                 def go():
                     c["p"].makeConnection(c["tr"])
@@ -184,7 +199,7 @@ class World:
             i = op[1]
             if i >= len(self.conns):
                 return None
-            c = self.conns[i]
+            c = rc = self.conns[i]
             if c["tr"].lost or c["gone"]:
                 return None
             data = bytes.fromhex(op[2])
@@ -194,7 +209,7 @@ class World:
             i = op[1]
             if i >= len(self.conns) or self.conns[i]["gone"]:
                 return None
-            c = self.conns[i]
+            c = rc = self.conns[i]
             c["gone"] = True
             raised = self._guard(lambda: c["p"].connectionLost(Failure(ConnectionDone())))
         elif k == "advance":
@@ -203,6 +218,7 @@ class World:
             raise ValueError(op)
         self.check()
         s = self.summary()
+        raised = self._exc_name(rc, raised)
         return ("raised=%s " % raised if raised else "") + s
 
     # -- observation ------------------------------------------------------------------------
@@ -239,7 +255,7 @@ class World:
             cs.append(":".join([str(i), st.replace(" ", "-"), str(len(p.buf)),
                                 "".join(self.tok(b) for b in c["tr"].written) or "-", str(c["tr"].lost),
                                 self.show_res(c["obs"].res) if c["obs"].res == "pending" or c["obs"].res[0] == "fail" else "ok",
-                                type(p._error).__name__ if p._error is not None else "-",
+                                self._exc_name(c, p._error) or "-",
                                 "t" if tc is not None and tc.active() else "-"]))
         w = self.idx(self.t._winner) if self.t._winner is not None else "-"
         lst = self.show_res(self.listener_obs.res) if self.listener_obs else "none"
@@ -344,6 +360,10 @@ def run_case(case):
         if s not in seen:
             seen.add(s)
             viol.append((s, m))
+    if any("raised=RecordError" in e for e in exp):
+        tags.append("records:complete-record-raised")
+    if any(c["p"].state == "records" and len(c["p"].buf) >= 4 for c in w.conns):
+        tags.append("records:incomplete-record-waiting")
     states = {c["p"].state for c in w.conns}
     for st in states:
         tags.append("final:" + str(st))
@@ -371,8 +391,19 @@ def peer_script(rng, w, relay, kind, decision):
     tail = b"" if w.sender else decision
     if kind == "honest":
         s = pre + E + tail
-    elif kind == "extra":       # an incomplete record length prefix right behind the handshake
-        s = pre + E + tail + bytes(rng.randrange(256) for _ in range(rng.randrange(1, 4))) if (w.sender or decision == GO) else pre + E + tail
+    elif kind == "extra":       # bytes right behind the handshake: the record-layer boundary
+        if w.sender or decision == GO:
+            extra = rng.choice([bytes(rng.randrange(256) for _ in range(rng.randrange(1, 4))),
+                                bytes(rng.randrange(256) for _ in range(rng.randrange(4, 9))),
+                                b"\x00\x00\x00\x00",                  # a complete, empty record
+                                b"\x00\x00\x00\x01A",                 # a complete record with a wrong nonce
+                                b"\x00\x00\x00\x01\x00",              # a complete record that does not authenticate
+                                b"\x00\x00\x00\x02\x00",              # an incomplete record
+                                b"\x00\x00\x00\x19" + bytes(25),      # nonce 0, garbage box
+                                b"\x00\x00", b"\x00\x00\x00"])
+        else:
+            extra = b""
+        s = pre + E + tail + extra
     elif kind == "stranger":
         s = rng.choice([b"GET / HTTP/1.0\r\n\r\n", b"SSH-2.0-OpenSSH_9.6\r\n", b"\x16\x03\x01\x02\x00\x01",
                         bytes(rng.randrange(256) for _ in range(rng.randrange(1, 120))), b"transit", b"t", b"\n"])
@@ -501,7 +532,7 @@ def gen_case(rng, big=False):
         elif ch[0] == "data":
             do(["data", ch[1], hx(pending[ch[1]].pop(0))])
         elif ch[0] == "junk":
-            do(["data", ch[1], hx(bytes(rng.randrange(256) for _ in range(rng.randrange(1, 4))))])
+            do(["data", ch[1], hx(bytes(rng.choice([0, 0, 1, rng.randrange(256)]) for _ in range(rng.randrange(1, 7))))])
         elif ch[0] == "lost":
             do(["lost", ch[1]])
         for i in range(n0, len(w.conns)):
@@ -552,6 +583,14 @@ def corpus():
     c(R, [["connect"], ["inbound"], ["connected", 1], ["data", 0, hx(E_r + NEVERMIND)], ["data", 1, hx(E_r + GO + b"\x00\x00")]], "receiver-nevermind-go")
     c(R, [["connect"], ["inbound"], ["data", 0, hx(GO)]], "receiver-go-only")
     c(R, [["inbound"], ["inbound"], ["data", 0, hx(E_r + GO)], ["data", 1, hx(E_r + GO)], ["connect"]], "receiver-two-go")
+    # the record-layer boundary behind `go`: waiting on an incomplete prefix / record, raising on a complete one
+    c(L, [["connect"], ["inbound"], ["data", 0, hx(E_s + b"\x4a\xb3\x1a")], ["advance", 0], ["data", 0, "9af6"],
+          ["data", 0, "00"]], "records-incomplete-waits")
+    c(L, [["connect"], ["inbound"], ["data", 0, hx(E_s + b"\x00\x00")], ["data", 0, "0000"], ["data", 0, "00"]], "records-empty-record")
+    c(L, [["connect"], ["inbound"], ["data", 0, hx(E_s + b"\x00\x00\x00\x02\x00")], ["data", 0, "41"], ["lost", 0]], "records-bad-nonce")
+    c(R, [["connect"], ["inbound"], ["data", 0, hx(E_r + GO + b"\x00\x00\x00\x01\x00")]], "records-bad-box-same-chunk")
+    c(R, [["connect"], ["inbound"], ["data", 0, hx(E_r + GO + b"\x00\x00\x01\x00" + bytes(100))], ["data", 0, hx(bytes(155))],
+          ["data", 0, "00"]], "records-256-byte-record")
     # cancelled connection whose timer is still running
     c(dict(L, directs=1), [["connect"], ["inbound"], ["connected", 1], ["data", 1, hx(E_s)], ["advance", 60], ["lost", 0], ["advance", 60]], "cancelled-then-timeout")
     return out
